@@ -51,7 +51,7 @@ PROPS["C03"] = {
     "level": "exploration",
     "rule": "case = one seeded history (or, for case 0 of each shard, a large scenario: v3 image with a DIFAT sector / many small "
             "streams / v4 with several FAT sectors / v3 with more DIFAT growth / v4 with many small streams); after EVERY successful step the raw bytes are judged "
-            "by the independent rule checker (refparse.rs, 59 rules). Eight shards first run a wide scenario (chain-shaped sibling tree of 70-1330 children: rules after creation, after each removal, after a reopen followed by 12-40 new entries - a new directory sector in v4 -, after remove_storage_all). non-trivial = history with >= 5 steps and >= 1 removal; "
+            "by the independent rule checker (refparse.rs, 59 rules). Eight shards first run a wide scenario (chain-shaped sibling tree of 70-1330 children: rules after creation, after each removal, after a reopen followed by 12-40 new entries - a new directory sector in v4 -, after remove_storage_all); one case in twenty is a seesaw history (a regular stream grows and shrinks by single sectors while other chains are begun and extended in between). non-trivial = history with >= 5 steps and >= 1 removal; "
             "distinct = FNV-64 of (version, step list)",
     "assumptions": COMMON_ASSUMPTIONS + [
         "tolerated, counted as slack not violations: mini-stream container / MiniFAT chain longer than the root size needs; root start sector kept when the mini stream is empty",
@@ -61,7 +61,7 @@ PROPS["C03"] = {
     "quick": {"budget_s": 22},
     "thorough": {"budget_s": 300},
     "floors": {
-        "quick": {"images_checked": 100000, "images_with_difat_sector": 1, "images_with_two_difat_sectors": 1, "images_with_three_difat_sectors": 1, "large_scenario.1": 1, "large_scenario.2": 1, "large_scenario.4": 1, "wide.rules_scenarios_passed": 8},
+        "quick": {"images_checked": 100000, "images_with_difat_sector": 1, "images_with_two_difat_sectors": 1, "images_with_three_difat_sectors": 1, "seesaw_cases": 1000, "large_scenario.1": 1, "large_scenario.2": 1, "large_scenario.4": 1, "wide.rules_scenarios_passed": 8},
         "thorough": {"images_checked": 1000000, "images_with_difat_sector": 2},
     },
 }
@@ -69,7 +69,7 @@ PROPS["C03"] = {
 PROPS["C06"] = {
     "level": "exploration",
     "rule": "case = one seeded call script (20-120 calls quick, 40-300 thorough) on one handle: read/read_exact/fill_buf+consume/"
-            "write/write_all/seek (18 argument classes incl. i64::MIN, i64::MAX, u64::MAX)/set_len/flush/position/len, replayed "
+            "write/write_all/seek (18 argument classes incl. i64::MIN, i64::MAX, u64::MAX; seek_relative for half of the relative seeks)/set_len (incl. lengths no compound file can hold: 1 << 45 ... u64::MAX must be refused without effect)/flush/position/len; read_vectored for a third of the raw reads, read_to_string for half of the read_to_end calls (streams that are UTF-8 text end to end are generated), the position after a read_exact that ran into the end must be the end (as for Cursor<Vec<u8>>); one script in sixteen ends with a handle that outlives its compound file; replayed "
             "under 3 of the 12 max_buffer_size x 2 version configurations, each checked call by call against a Vec<u8>+cursor model "
             "(Read/Write contracts for raw calls); exact-count-only scripts must give identical traces under all configurations; "
             "fresh-handle and reopen readbacks every 10-20 calls; a quarter of the scripts run on a stream of a synthesised foreign file whose unowned bytes (rest of the final sector, free sectors) hold garbage; five shards first run the beyond-4-GiB scenario. every script is non-trivial (>= 20 calls); distinct = (script seed, initial length)",
@@ -80,7 +80,7 @@ PROPS["C06"] = {
     "thorough": {"budget_s": 300},
     "floors": {
         "quick": {"scripts": 3000, "seek.end_i64min": 100, "seek.cur_i64min": 100, "seek.start_u64max": 100, "seek.end_i64max": 100, "seek.cur_i64max": 100,
-                  "scripts_big": 10, "differential_scripts_compared": 1000, "fresh_handle_readbacks": 10000, "huge.scenarios_passed": 5, "start.foreign_dirty_slack": 5000},
+                  "scripts_big": 10, "differential_scripts_compared": 1000, "fresh_handle_readbacks": 10000, "huge.scenarios_passed": 5, "start.foreign_dirty_slack": 5000, "orphan_handle_scripts": 3000},
         "thorough": {"scripts": 30000, "scripts_big": 300},
     },
 }
@@ -89,7 +89,7 @@ PROPS["C07"] = {
     "level": "exploration",
     "rule": "case = one seeded history with up to 6 long-lived handles on different streams interleaved with removals (steered, by the "
             "independent parser's view of the sibling trees, onto entries with two children while handles sit on their in-order "
-            "predecessor / successor / parent), creations reusing the freed slot, overwrites/resizes of other streams (payloads include runs of zeros covering whole aligned sectors, written over non-zero data; the root carries a CLSID and state bits in two cases of three); per-step "
+            "predecessor / successor / parent), creations reusing the freed slot, overwrites/resizes of other streams (payloads include runs of zeros covering whole aligned sectors, written over non-zero data; the root carries a CLSID and state bits in two cases of three; a third of the handles are opened under a letter-case variant, half are dropped dirty instead of flushed; one step in forty is an episode on scratch streams: a listing in progress while a handle grows a stream, or create_stream over a stream with a live handle while a lower directory slot is free); per-step "
             "len/position check, and at checkpoints (all handles flushed) the full dump through fresh lookups AND through the "
             "independent parser is compared with the model. non-trivial = history with >= 1 two-child removal; distinct = FNV-64 of steps",
     "assumptions": COMMON_ASSUMPTIONS + ["a stream with a live handle is never removed or overwritten (outside the property)"],
@@ -98,7 +98,7 @@ PROPS["C07"] = {
     "thorough": {"budget_s": 300},
     "floors": {
         "quick": {"two_child_removals": 5000, "two_child_removal_with_handle_on.predecessor": 1000, "creations_reusing_slot_with_live_handles": 5000,
-                  "handle_ops_after_slot_reuse": 5000, "checkpoints": 5000, "huge.scenarios_passed": 5},
+                  "handle_ops_after_slot_reuse": 5000, "checkpoints": 5000, "huge.scenarios_passed": 5, "listings_across_a_write": 10000, "recreations_under_a_handle": 10000},
         "thorough": {"two_child_removals": 50000, "two_child_removal_with_handle_on.predecessor": 10000},
     },
 }
@@ -187,7 +187,7 @@ PROPS["C17"] = {
             "classes: epoch +-{0,1,99,100,101 ns}, sub-100ns fractions, 1601 exactly +-, year 1000, now, 9999, the tick limit +-, year 1e5, "
             "random) on 5-80 entries interleaved with structural changes; checks: entry/listing/walk immediately (model with independent "
             "i128 tick arithmetic), reopen in both modes, raw bytes through the independent parser (GUID field layout, tick value), "
-            "clock window of new storages and touch; a fifth of the histories start from a synthesised foreign file whose unallocated directory entries carry stale CLSID / state / time fields. non-trivial = >= 3 metadata calls; distinct = FNV-64 of steps",
+            "clock window of new storages and touch; a fifth of the histories start from a synthesised foreign file whose unallocated directory entries carry stale CLSID / state / time fields; one setter in twelve is preceded by a failed attempt on a store that fails one underlying call (the same setter, then repeated by the step; or, for storages, a setter of another field that is not repeated and whose visible outcome is adopted). non-trivial = >= 3 metadata calls; distinct = FNV-64 of steps",
     "assumptions": COMMON_ASSUMPTIONS + ["set_modified_time / touch on the root changes the root's time (code behaviour; the doc comment of touch says otherwise)",
                                          "a clock window sample is skipped if the wall clock stepped backwards between the two readings"],
     "checked_share": 0.6,
@@ -196,7 +196,7 @@ PROPS["C17"] = {
     "floors": {
         "quick": {"live_checks": 200000, "reopen_checks": 50000, "raw_byte_checks": 50000, "clock_window_checks": 10000,
                   "time_class.before_1601_saturates": 2000, "time_class.beyond_tick_limit_saturates": 2000, "time_class.off_grid_before_1970": 5000,
-                  "time_class.off_grid_after_1970": 5000, "stream_touch_noop_checked": 300, "start.foreign_dirty_free_slots": 2000},
+                  "time_class.off_grid_after_1970": 5000, "stream_touch_noop_checked": 300, "start.foreign_dirty_free_slots": 2000, "setter_first_attempt_failed": 5000, "other_setter_failed_and_not_repeated": 2000},
         "thorough": {"live_checks": 2000000},
     },
 }
@@ -225,7 +225,7 @@ PROPS["C04"] = {
     "rule": "case = one random logical tree (0-70 objects, names incl. exceptional upper-casing and supplementary characters, sizes "
             "from the boundary set, CLSIDs/state/times) written by the independent synthesiser under a random legal layout (sector "
             "roles permuted with FREE sectors in between, fragmented non-monotone chains, directory entries in random slots with gaps, "
-            "textbook red-black sibling trees, permuted mini sectors, FAT sectors anywhere, garbage in all unowned bytes (a third), one or two spare FAT sectors (two fifths; such files are then grown until the library appends a FAT sector of its own), other header minor versions, red tops of sibling trees where that creates no red-red edge, a partial final sector (file ends after the last used byte), opened with several buffer sizes, one > 109-FAT-sector DIFAT-chain image per "
+            "textbook red-black sibling trees, permuted mini sectors, FAT sectors anywhere, garbage in all unowned bytes (a third), one or two spare FAT sectors (two fifths; such files are then grown until the library appends a FAT sector of its own), other header minor versions, red tops of sibling trees where that creates no red-red edge, a partial final sector (file ends after the last used byte), a spare DIFAT sector at the end of the chain (such files are grown by 140 KB and the stored bytes reopened), opened with several buffer sizes, one > 109-FAT-sector DIFAT-chain image per "
             "shard); must pass the synth/refparse self-check (else harness error), then open strict+permissive with dump == tree and "
             "case-variant lookups, then a 10-30 step history with the C01+C02+C03 monitors. non-trivial = image with >= 3 objects "
             "accepted in both modes; distinct = FNV-64 of the image bytes",
@@ -235,7 +235,7 @@ PROPS["C04"] = {
     "thorough": {"budget_s": 300},
     "floors": {
         "quick": {"opened.Strict": 8000, "opened.Permissive": 8000, "layout.red_nodes": 5000, "layout.dir_gaps": 5000, "layout.fragmented_chain": 3000,
-                  "layout.out_of_order_fat": 5000, "layout.free_sectors_inside": 2000, "layout.difat_chain": 8, "mutated_afterwards": 8000, "layout.spare_fat_sectors": 1500, "layout.dirty_slack_and_free_sectors": 1500, "spare_fat_filled_past_coverage": 800, "layout.partial_final_sector": 60},
+                  "layout.out_of_order_fat": 5000, "layout.free_sectors_inside": 2000, "layout.difat_chain": 8, "mutated_afterwards": 8000, "layout.spare_fat_sectors": 1500, "layout.dirty_slack_and_free_sectors": 1500, "spare_fat_filled_past_coverage": 800, "layout.partial_final_sector": 60, "spare_difat_grown_and_reopened": 1},
         "thorough": {"opened.Strict": 100000, "layout.difat_chain": 50},
     },
 }
@@ -303,7 +303,7 @@ PROPS["C16"] = {
                   "partB.difat_chain_ends_free.single": 60, "partB.adjacent_red_nodes.single": 100, "partB.name_not_terminated.single": 100, "partB.wrong_root_name.single": 100,
                   "partB.stream_clsid.single": 100, "partB.stream_ctime.single": 100, "partB.stream_mtime.single": 100, "partB.storage_start.single": 80, "partB.storage_size.single": 80,
                   "partB.num_fat_wrong.single": 150, "partB.num_difat_wrong.single": 150, "partB.num_minifat_wrong.single": 100, "partB.v3_num_dir_nonzero.single": 60,
-                  "partB.minifat_overlong.single": 80, "partB.zero_padded_difat.combined": 250, "partB.base.library-written with a DIFAT sector": 400},
+                  "partB.minifat_overlong.single": 80, "partB.zero_padded_difat.combined": 250, "partB.base.library-written with a DIFAT sector": 400, "partB.base.library-written, mini stream emptied": 150},
         "thorough": {"partB.singles_checked": 100000, "partB.combinations_checked": 100000},
     },
 }
@@ -338,7 +338,7 @@ PROPS["C13"] = {
             "write then fail'), plus a 'store full' sweep (from the k-th write on every underlying write returns Ok(0)); each failed API call is retried up to 2x; every faulty run is limited to 50x the fault-free underlying call count + 20000 (bounded progress in logical steps). Oracles: the API call inside which the underlying call failed "
             "returns Err; no panic and no request on the (instrumented) lock that would block forever; an Ok flush implies the underlying "
             "writer was flushed after its last write; an Ok set_len shows the new length to a fresh lookup; whenever Stream::flush returns Ok a fresh handle reads back every byte accepted by earlier write "
-            "calls on that handle, and so does the reopened byte image - also after a failed flush; once every failed call has succeeded on retry (and the store did not tear a write) the stored bytes must open again and hold the state bits that set_state_bits reported as set - also when the failure hit a structural call. One workload per shard in quick (three script families: two handles with migrations; v3 directory/FAT growth and truncating re-creation; v4 directory growth at the 33rd entry, swept from that creation on), six in thorough. evaluations = faulty runs; "
+            "calls on that handle, and so does the reopened byte image - also after a failed flush; once every failed call has succeeded on retry (and the store did not tear a write) the stored bytes must open again and hold the state bits that set_state_bits reported as set - also when the failure hit a structural call. One workload per shard in quick (four script families: two handles with migrations and write_vectored; v3 directory/FAT growth - past 128 sectors on two workloads -, truncating re-creation, set_len growth into sectors that removed streams left dirty; v4 directory growth at the 33rd entry, swept from that creation on; a prebuilt 7 MB v3 image crossing from 109 to 110 FAT sectors, swept around the crossing); in the runs with an odd fault position a failed set_len is not repeated (the stream must then be as before or resized, nothing else), six in thorough. evaluations = faulty runs; "
             "distinct_nontrivial = distinct (workload, kind, position); exhaustive = all positions of all four sweeps visited (family C: all positions from its marker on)",
     "assumptions": COMMON_ASSUMPTIONS + ["errors swallowed by Stream::drop are outside the property (handles are flushed explicitly, and leaked rather than dropped if that keeps failing)",
                                          "after a failed structural call (create/remove/set_len) the affected content is no longer compared; only error reporting and no-panic are judged"],
@@ -347,7 +347,7 @@ PROPS["C13"] = {
     "quick": {"budget_s": 45},
     "thorough": {"budget_s": 400},
     "floors": {
-        "quick": {"exhaustive_workloads": 16, "positions.write": 8000, "positions.seek": 8000, "positions.flush": 100, "positions.full": 8000, "ok_flush_stored_file_opens": 100000, "ok_metadata_reopen_checked": 20000, "ok_flush_readbacks": 50000, "ok_flush_after_failed_flush_readbacks": 5000, "ok_flush_reopen_readbacks": 50000},
+        "quick": {"exhaustive_workloads": 16, "positions.write": 8000, "positions.seek": 8000, "positions.flush": 100, "positions.full": 8000, "ok_flush_stored_file_opens": 100000, "ok_metadata_reopen_checked": 20000, "set_len_recovered_content_known_again": 2000, "ok_flush_after_unrepeated_failed_set_len_checked": 3000, "ok_flush_readbacks": 50000, "ok_flush_after_failed_flush_readbacks": 5000, "ok_flush_reopen_readbacks": 50000},
         "thorough": {"exhaustive_workloads": 96},
     },
 }
@@ -417,7 +417,7 @@ PROPS["C14"] = {
     "quick": {"budget_s": 25},
     "thorough": {"budget_s": 300},
     "floors": {
-        "quick": {"m1.distinct_acquisition_sites": 8, "m1.handle_scripts": 10, "m1.two_handle_scripts": 2, "m2.dirty_handle_drops_checked": 300, "m2.forced_rounds": 60, "m2.stress_rounds": 100, "m2.reader_results_checked": 20000,
+        "quick": {"m1.distinct_acquisition_sites": 8, "m1.handle_scripts": 10, "m1.two_handle_scripts": 2, "m2.dirty_handle_drops_checked": 300, "m2.spin_rounds": 15, "m1.closure_scripts": 2, "m2.forced_rounds": 60, "m2.stress_rounds": 100, "m2.reader_results_checked": 20000,
                   "m3.miri_seeds_completed": 16},
         "thorough": {"m2.stress_rounds": 1000, "m3.miri_seeds_completed": 192},
     },
